@@ -26,6 +26,14 @@ var VerifDir = func() string {
 	return "/verif"
 }()
 
+// OutDir is where evidence and replays are written (VERIF_OUT redirects a scratch run).
+var OutDir = func() string {
+	if d := os.Getenv("VERIF_OUT"); d != "" {
+		return d
+	}
+	return VerifDir
+}()
+
 func envInt(name string, def int) int {
 	if s := os.Getenv(name); s != "" {
 		if n, err := strconv.Atoi(s); err == nil {
@@ -442,7 +450,7 @@ func mergeRec(m, r *Rec) {
 }
 
 func writeReplay(p *Prop, tier string, v Violation) string {
-	dir := filepath.Join(VerifDir, "replays", p.ID)
+	dir := filepath.Join(OutDir, "replays", p.ID)
 	os.MkdirAll(dir, 0o755)
 	body := map[string]any{"property": p.ID, "tier": tier, "family": v.Family, "index": v.Index, "key": v.Key,
 		"case": v.Case, "expected": v.Expected, "observed": v.Observed,
@@ -538,8 +546,8 @@ func writeEvidence(p *Prop, tier string, m *Rec, wall float64, vio int64, worker
 		"violations":  vio,
 	}
 	b, _ := json.MarshalIndent(ev, "", " ")
-	os.MkdirAll(filepath.Join(VerifDir, "evidence"), 0o755)
-	if err := os.WriteFile(filepath.Join(VerifDir, "evidence", p.ID+".json"), b, 0o644); err != nil {
+	os.MkdirAll(filepath.Join(OutDir, "evidence"), 0o755)
+	if err := os.WriteFile(filepath.Join(OutDir, "evidence", p.ID+".json"), b, 0o644); err != nil {
 		fmt.Fprintln(os.Stderr, "evidence:", err)
 	}
 }
